@@ -165,11 +165,14 @@ class MinEngine:
                                         n_outputs=rng.choice((1, 2, 3)), locality=rng.choice((0.6, 0.8, 0.9)))
                 st.bump('dense-circuit')
             else:
-                n = weighted_choice(rng, [(2, 3), (3, 5), (4, 4), (5, 2), (6, 1)])
+                n = weighted_choice(rng, [(2, 3), (3, 5), (4, 4), (5, 2), (6, 1), (7, 0.6), (8, 0.4)])
                 g = weighted_choice(rng, [(rng.randint(3, 8), 6), (rng.randint(9, 14), 3), (rng.randint(15, 25), 1)])
                 net = gennet.random_net(rng, n, g, list(SUPPORTED), arity, rng.choice(('plain', 'digits', 'plain', 'digits', 'lookalike')),
                                         n_outputs=rng.choice((1, 1, 2, 2, 3)), locality=rng.choice((0.0, 0.5, 0.8)))
-            if not net.outputs:
+            if rng.random() < 0.02:
+                net.outputs = []  # a circuit that marks no output at all: nothing to preserve but inputs and size
+                st.bump('argument-without-outputs')
+            elif not net.outputs:
                 return
         try:
             how = weighted_choice(rng, [('build', 5), ('parse-shuffled', 3), ('build+rename', 2)])
@@ -211,9 +214,13 @@ class MinEngine:
             enable_validation=rng.random() < 0.5,
             max_subcircuit_size=weighted_choice(rng, [(1, 1), (2, 2), (3, 4), (4, 4), (5, 3), (6, 1), (9, 0.5)]),
             solver_time_limit_sec=rng.choice((1, 5, 15)),
-            cut_size=weighted_choice(rng, [(2, 2), (3, 4), (4, 3), (5, 1)]),
+            cut_size=weighted_choice(rng, [(2, 2), (3, 4), (4, 3), (5, 1), (6, 0.4), (7, 0.3)]),
             cut_limit=weighted_choice(rng, [(2, 1), (3, 1), (5, 2), (8, 2), (25, 3)]),
         )
+        if len(net.inputs) >= 6 and rng.random() < 0.5:
+            # wide cuts matter only where a cone can have that many leaves
+            kw['cut_size'] = rng.choice((6, 7, min(8, len(net.inputs))))
+            kw['max_subcircuit_size'] = rng.choice((3, 4, 5, 6))
         case = {'gates': [[g, t, list(ops)] for g, (t, ops) in net.gates.items()], 'inputs': list(net.inputs),
                 'outputs': list(net.outputs), 'basis': bname, 'spelling': sp, 'kw': kw, 'armed': armed}
         return self.run_case(op, rng, net, case, real)
